@@ -843,9 +843,19 @@ def _inl(rule):
     return run
 
 
+def rule_block_namespace(model):
+    r = RuleResult('C02.R8', 'the mapping dtml-in lays over the namespace '
+                   'answers only its own names (keys with a dash, or keys '
+                   'starting with a non-empty prefix= alias): plain names '
+                   'keep resolving from the outer sources inside the body')
+    from .. import prefixns
+    return prefixns.fill_rule(r, model)
+
+
 INLINED_VIEW = True
 RULES_PLAIN = [rule_push_order, rule_ctor, rule_call_flag, rule_direction,
-               rule_scoping, rule_instance_state, rule_keyword_namespace]
+               rule_scoping, rule_instance_state, rule_keyword_namespace,
+               rule_block_namespace]
 RULES = [_inl(r_) for r_ in RULES_PLAIN] if INLINED_VIEW else RULES_PLAIN
 EXPLANATION = (
     'Forward dataflow of the precedence class of every namespace push along '
